@@ -10,6 +10,9 @@
 From Ink.Engine Require Import SaveWf SaveProofs RunSave SaveWitness SaveWitnessProofs Tie.
 From Ink.Data Require Import Tree.
 From Ink.Gen Require Import EngineGen SaveGen.
+From Ink.Gen Require Import SaveGen.
+From Ink.Engine Require Import Save.
+From Ink.Shell Require Import LoadFlows.
 
 (* (1) every kind of value: what is read back is the value written, except that a
    list loses `origins` (and, unless the format writes them, its origin names) *)
@@ -273,3 +276,20 @@ Check refutation_witnesses :
   /\ differs_on sw_now save_switches_now wit_lists_json wit_lists_script = negb list_origins_written
   /\ differs_on sw_now save_switches_now wit_flows_json wit_flows_script = alias_current.
 Print Assumptions refutation_witnesses.
+
+(* ---------------- a successful load replaces the parked flows ---------------- *)
+(* loading a save (current format) into a live story whose parked flows differ from the save's —
+   flows created after the save point, flows the save never had — gives exactly the world that
+   loading into a story without them gives: no flow of the abandoned timeline survives a load *)
+Theorem successful_load_replaces_parked_flows :
+  forall (sp : ssite -> bool) (ssw : save_switches) (v : option (list (text * flow))) (w : world) (j : json) (w' : world),
+    jget "flows" j <> None ->
+    load_state sp ssw w j = (OOk tt, w') ->
+    load_state sp ssw (with_named v w) j = (OOk tt, w').
+Proof. exact LoadFlows.successful_load_replaces_parked_flows. Qed.
+Check successful_load_replaces_parked_flows :
+  forall (sp : ssite -> bool) (ssw : save_switches) (v : option (list (text * flow))) (w : world) (j : json) (w' : world),
+    jget "flows" j <> None ->
+    load_state sp ssw w j = (OOk tt, w') ->
+    load_state sp ssw (with_named v w) j = (OOk tt, w').
+Print Assumptions successful_load_replaces_parked_flows.
